@@ -587,7 +587,8 @@ pub fn drivers(c: &crate::props::c08::HCase, st: &mut Stats) -> Result<(), Strin
     match crate::props::c08::usage(c, &mut scratch) {
         Ok(()) => {}
         // "(was it notified?)": a non-blocking submission the notification-driven device never saw
-        Err(m) if m.contains("lost wake-up") || m.contains("was it notified?") => return Err(format!("{:?} on {:?} offered {:#x} policy {:?}: {}", c.drv, c.kind, c.offered, c.policy, m)),
+        // ... or a blocking call that can never return because the device has nothing it could act on
+        Err(m) if m.contains("lost wake-up") || m.contains("was it notified?") || m.contains("blocking call never returns") => return Err(format!("{:?} on {:?} offered {:#x} policy {:?}: {}", c.drv, c.kind, c.offered, c.policy, m)),
         Err(_) => st.class("driver_run_stopped_by_another_oracle"),
     }
     st.class("driver_blocking_helper_runs");
